@@ -154,7 +154,14 @@ def parse_google_drive_url(url):
         if path[2] != "e":
             return None
 
+        # NOTE: an empty path segment is no id
+        if len(path) < 4 or not path[3]:
+            return None
+
         return GoogleDrivePublicLink(drive_type, path[3])
+
+    if not path[2]:
+        return None
 
     return GoogleDriveFile(drive_type, path[2])
 
